@@ -25,7 +25,15 @@ def main(argv):
     if replay:
         return mod.replay(json.load(open(replay))) or 0
     v = C.Verdict(prop)
-    mod.run(v)
+    try:
+        mod.run(v)
+    except Exception as e:  # noqa: BLE001 - the implementation (or the model build) broke the evaluation itself
+        import traceback
+        tb = traceback.format_exc()
+        sys.stderr.write(tb)
+        v.broken_obligation("correspondence-evaluation",
+                            {"what": f"the check could not be evaluated: {type(e).__name__}: {e}",
+                             "traceback": tb[-4000:]})
     return v.finish(getattr(mod, "LEVEL", "proof"))
 
 if __name__ == "__main__":
